@@ -20,6 +20,18 @@ _MAXO = re.compile(r"max_order=(\d+)")
 _ARG = re.compile(r"\((.*)\)$")
 
 
+def _ev(text):
+    """Evaluate an argument text of an operation with the names the alphabets bind (exotic labels)."""
+    import numpy as np
+
+    ns = dict(A.NAMESPACE)
+    ns["np"] = np
+    try:
+        return eval(text, ns)
+    except NameError:
+        raise RuntimeError(f"harness: unbound name in operation argument {text!r}")  # never a silent skip
+
+
 def step_relations(ctx):
     """(v): removal removes exactly the simplex and its supersets; max_order respected by what a call creates;
     nothing is deleted by a non-removal."""
@@ -54,7 +66,7 @@ def step_relations(ctx):
                 out.append(("max-order", f"{ctx.op} created simplices above order {k}: {big}", tags))
     elif method in ("H.remove_simplex_id", "H.remove_edge") and not ctx.out.raised:
         try:
-            idx = eval(_ARG.search(ctx.op).group(1))
+            idx = _ev(_ARG.search(ctx.op).group(1))
         except Exception:  # noqa: BLE001
             return out
         if idx in prem:
@@ -64,7 +76,7 @@ def step_relations(ctx):
                             f"exactly {want} (the simplex and the simplices containing it)", tags))
     elif method in ("H.remove_simplex_ids_from", "H.remove_edges_from"):
         try:
-            ids = eval(_ARG.search(ctx.op).group(1))
+            ids = _ev(_ARG.search(ctx.op).group(1))
         except Exception:  # noqa: BLE001
             return out
         want = set()
@@ -75,7 +87,7 @@ def step_relations(ctx):
             out.append(("remove-exact", f"{ctx.op}: removed {removed}, created {created}; expected {want}", tags))
     elif method == "H.remove_node" and not ctx.out.raised:
         try:
-            n = eval(_ARG.search(ctx.op).group(1))
+            n = _ev(_ARG.search(ctx.op).group(1))
         except Exception:  # noqa: BLE001
             return out
         want = {e for e, m in prem.items() if n in m}
@@ -89,10 +101,14 @@ def specs(tier):
     static = A.simplicial_static() + A.simplicial_deviant()
     gens = [A.gen_simplex_removals]
     inv = [oracles.undirected_incidence, oracles.simplicial_closure]
+    exotic = explore.Spec("simplicialcomplex-histories-exotic-labels",
+                          ["xgi.SimplicialComplex()", "xgi.SimplicialComplex({ET: [TA, SB], 5: [SB, FC]})"],
+                          A.simplicial_exotic(), gens, invariants=inv, steps=[step_relations], depth=3,
+                          dev_bound=1 if tier == "quick" else 2, namespace=histcheck.base_namespace)
     if tier == "quick":
         return [explore.Spec("simplicialcomplex-histories", SEEDS, static, gens, invariants=inv, steps=[step_relations],
-                             depth=3, dev_bound=1, namespace=histcheck.base_namespace)]
-    return [
+                             depth=3, dev_bound=1, namespace=histcheck.base_namespace), exotic]
+    return [exotic,
         explore.Spec("simplicialcomplex-histories", SEEDS, static, gens, invariants=inv, steps=[step_relations],
                      depth=3, dev_bound=2, namespace=histcheck.base_namespace),
         explore.Spec("simplicialcomplex-histories-deep", SEEDS[:2], A.simplicial_trim(), gens, invariants=inv,
